@@ -82,7 +82,7 @@ pub const BUILTINS: &[&str] = &[
     "all", "count", "then", ".", "apply", "const", "even", "odd", "abs", "group_all", "contains",
     "permutations", "combinations", "subsequences", "^^", "iterate", "lazy_map", "lazy_filter", "**",
     ".*", "*.", "..", "=>", "join", "<=>", "only", "index", "find", "locate", "uncons", "unsnoc",
-    "input", "read", "read_bytes", "interact", "interact_lines",
+    "input", "read", "read_bytes", "interact", "interact_lines", "||+", "classify",
 ];
 
 pub const TYPES: &[(&str, fn() -> Ty)] = &[
